@@ -10,7 +10,7 @@ Driver for C02.
 <state> = C[<con>,…]|T[<key>:<type>,…]|X[<key>:<keys>,…]|D<shape>|A<keys|_>
 <con>   = type/key/data/bounds/geom/ring/size/cmaxes/coords/ancils
 shape   = `_` (none) | `s` (scalar) | 3x4        keys = `n` (empty) | k+k+…
-cmaxes  = `n` | tok+tok  (tok = key | ~name)      ancils = `n` | tok+tok (tok = key | ~ for None)
+cmaxes  = `n` | tok+tok  (tok = key | ~name)      ancils = `n` | term~key+term~+…  (`term~` = term mapped to None)
 A key inside an operation may be `#i` = the key returned by operation i; in the printed states a key
 that was returned by an operation is printed as `#i` (latest i), so that the automatically generated
 identifiers are compared up to renaming.
@@ -88,8 +88,11 @@ def showCmAx (ret : Ret) : CmAx → String
   | .key k => showKey ret k
   | .name n => "~" ++ n
 
-def parseAncil (ret : Ret) (s : String) : Option (Option Key) :=
-  if s == "~" then some none else (parseKey ret s).map some
+/-- `term~key` or `term~` (the term is mapped to None) -/
+def parseAncil (ret : Ret) (s : String) : Option (String × Option Key) :=
+  match s.splitOn "~" with
+  | [t, v] => if v.isEmpty then some (t, none) else (parseKey ret v).map (fun k => (t, some k))
+  | _ => none
 
 def parseListOf {α} (f : String → Option α) (s : String) : Option (List α) :=
   if s == "n" then some [] else (s.splitOn "+").mapM f
@@ -113,7 +116,8 @@ def parseCon (ret : Ret) (s : String) : Option (CType × String × Con) :=
     let cmx ← parseListOf (parseCmAx ret) cmx
     let co ← parseListOf (parseKey ret) co
     let an ← parseListOf (parseAncil ret) an
-    some (t, k, { data := d, bounds := b, geom := g, ring := r, size := sz, cmAxes := cmx, coords := co, ancils := an })
+    some (t, k, { data := d, bounds := b, geom := g, ring := r, size := sz, cmAxes := cmx, coords := co,
+                  ancils := an.map (·.2), terms := an.map (·.1) })
   | _ => none
 
 def showCon (ret : Ret) (t : CType) (k : Key) (c : Con) : String :=
@@ -122,7 +126,8 @@ def showCon (ret : Ret) (t : CType) (k : Key) (c : Con) : String :=
     (match c.size with | some n => toString n | none => "_"),
     (if c.cmAxes.isEmpty then "n" else String.intercalate "+" (sortStrs (c.cmAxes.map (showCmAx ret)))),
     (if c.coords.isEmpty then "n" else String.intercalate "+" (sortStrs (c.coords.map (showKey ret)))),
-    (if c.ancils.isEmpty then "n" else String.intercalate "+" (sortStrs (c.ancils.map (fun a => match a with | some k => showKey ret k | none => "~"))))]
+    (if c.ancils.isEmpty then "n" else String.intercalate "+" (sortStrs ((c.terms.zip c.ancils).map (fun a =>
+      a.1 ++ "~" ++ (match a.2 with | some k => showKey ret k | none => "")))))]
 
 def body (pre : String) (s : String) : Option (List String) :=
   if s.startsWith (pre ++ "[") && s.endsWith "]" then
